@@ -64,7 +64,7 @@ def build_program_case(rng, n_blocks=None, allow=None, main_modes=('usr', 'sys',
         for k in ('irq', 'fiq'):
             if rng.random() < 0.7:
                 rets[k] = 'srs_cps_sys_rfe' if mode == 'svc' else 'srs_cps_svc_rfe'
-                if mode != 'svc' and rets['svc'] not in ('movs', 'subs', 'ldm^', 'srs_rfe', 'it_subs'):
+                if mode != 'svc' and rets['svc'] not in ('movs', 'subs', 'ldm^', 'srs_rfe', 'it_subs', 'adds0', 'orrs0', 'eors0', 'bics0'):
                     rets['svc'] = 'srs_rfe'          # the SVC handler now shares its (descending) stack with an interrupt handler: no ascending frames
     low, hinfo = P.build_low(te, rets)
     allow = allow or ('alu', 'mem', 'stack', 'loop', 'cond', 'svc', 'udf', 'it', 'multi', 'smc')
@@ -427,6 +427,9 @@ def run_psr_walk(case):
                     imm = 4 if op['t1'] else 0
                     if thumb:
                         w = T.subs_pc_lr(imm)
+                    elif imm == 0 and (op['bits'] >> 4) & 1:
+                        # ADDS / ORRS / EORS / BICS pc, lr, #0: the other data-processing forms of the same return
+                        w = A.dp_imm(['add', 'orr', 'eor', 'bic'][(op['bits'] >> 5) & 3], 15, 14, 0, s=1)
                     else:
                         w = A.subs_pc_lr(imm) if (imm or op['e']) else A.movs_pc_lr()
             elif form == 'rfe':
